@@ -144,6 +144,60 @@ add('C20',
     "InterpolatedUnivariateSpline as reference implementations; standard "
     "DLF only with a single time (2-D freq_required otherwise).")
 
+add('C08',
+    "Hypothesis over problems x gridding modes x file mode; oracles: "
+    "Richardson-extrapolated central differences of data.synthetic of fresh "
+    "simulations vs jvec; adjoint identity Re<w,Jv> = <J^T w,v>; "
+    "jtvec(residual*weights) vs gradient of a fresh simulation",
+    "Exploration: (a) on generated 'same'-grid problems (mixed sources and "
+    "receivers, six mappings, four anisotropy cases, NaN-masked data, in "
+    "memory and file based) jvec is compared with the FD derivative of the "
+    "data (tolerance 1e-5 ||Jv||, measured <= 3e-7), the adjoint identity "
+    "is checked for random real v and complex w, and jtvec of the weighted "
+    "residual must equal the gradient; (b) the adjoint identity is checked "
+    "for every gridding mode {same, single, frequency, source, both} with "
+    "generated gridding options.",
+    "Trusted: emg3d forward solves for the FD side (C01); data-space "
+    "vectors are zero where the observed datum is missing; non-converged "
+    "cases are inconclusive.")
+
+add('C09',
+    "Hypothesis over grids x positions x angles x fields; oracles: exact "
+    "transposition of get_receiver('linear') and point-source vectors "
+    "against each other and against checker-side trilinear / face weights "
+    "and refop.curl; NaN region; reciprocity bounded by a term derived from "
+    "the actual residuals",
+    "Exploration: electric and magnetic point receivers are compared with "
+    "the inner product of the field and the unit point-source vector and "
+    "with the checker's own interpolation weights (positions on nodes, one "
+    "ulp off, cell centres, all azimuth/elevation classes, real/complex "
+    "fields, mu_r none/constant/heterogeneous); NaN exactly outside "
+    "[second node, second-last node]; reciprocity of two exchanged "
+    "emg3d.solve runs (e-e, m-m) within tol(||e2|| ||b1|| + ||e1|| ||b2||)/"
+    "|s mu0| plus the exact residual identity.",
+    "Trusted: vp/refop.py curl/assembly, checker-side weights in "
+    "vp/checks/c09_receivers.py; reciprocity bound relies on the solver's "
+    "success certificate (C01).")
+
+add('C16',
+    "Hypothesis over all gridding inputs of origin_and_widths / "
+    "construct_mesh; oracle: postconditions recomputed from the inputs "
+    "with the checker's own skin depth / wavelength / domain formulas, or "
+    "the documented RuntimeError / ValueError",
+    "Exploration: inputs in every accepted format (domain/distance/vector, "
+    "tuple/dict/per-direction None, stretching pairs, width limits, pps, "
+    "lambda_factor, max_buffer, lambda_from_center, center_on_edge, sea "
+    "surface, cell-number lists <= 256, six mappings, property lists of "
+    "length 1,2,3,4,7); every returned mesh is checked for permitted cell "
+    "count, positive widths, coverage of survey domain + buffer, stretching "
+    "bound (with sea-surface allowance), centre placement, retained vector "
+    "nodes and sea surface node-or-warning; otherwise only 'No suitable "
+    "grid found' or the documented ValueError is accepted.",
+    "Trusted: checker-side formulas in vp/checks/c16_gridding.py (the "
+    "Laplace skin-depth convention of the code comment is adopted); it "
+    "never claims that a mesh should have been found (guarded at exit 2 "
+    "if < 60 % of designed-feasible inputs return one).")
+
 NOT_BUILT = "check not built yet (see DESIGN.md section 3 for the plan)"
 
 
